@@ -43,7 +43,16 @@ def zero(e):
     if e == 0:
         return True
     e = sp.simplify(sp.together(sp.expand(e)))
-    return e == 0
+    if e == 0:
+        return True
+    # a pure number that the rationalisation of the code's floats left at rounding level (1/N, k/N ... computed in floating point and
+    # not recovered exactly by nsimplify): equal up to 1e-9 is equal for the purposes of these identities
+    if getattr(e, 'is_number', False) and not e.free_symbols:
+        try:
+            return abs(complex(e)) < 1e-9
+        except Exception:
+            return False
+    return False
 
 
 @contextlib.contextmanager
